@@ -4,6 +4,7 @@ package props
 
 import (
 	"fmt"
+	"math"
 	"os"
 	"path/filepath"
 	"strings"
@@ -363,6 +364,14 @@ func c14HandBuilt(run *hx.Run) {
 				cells = append(cells, hx.CellSpec{Rowid: int64(i + 1), Payload: mk(hx.RecordSpec{Values: []hx.Value{f, nil, int64(i)}})})
 			}
 			variants = append(variants, variant{"floats", cells})
+		}
+		// 8. an 8-byte float field holding a NaN bit pattern (SQLite never writes one, and reads it as NULL)
+		{
+			var cells []hx.CellSpec
+			for i, bits := range []uint64{0x7ff8000000000000, 0xfff8000000000000, 0x7ff0000000000001, 0x7fffffffffffffff, 0xfff0000000000001} {
+				cells = append(cells, hx.CellSpec{Rowid: int64(i + 1), Payload: mk(hx.RecordSpec{Values: []hx.Value{math.Float64frombits(bits), "after", int64(i)}})})
+			}
+			variants = append(variants, variant{"nan-bit-patterns", cells})
 		}
 		for _, v := range variants {
 			ok := true
